@@ -168,13 +168,16 @@ Section Machine.
   Definition route_opt (g : gw) (m : option msg) : gw * option msg :=
     match m with None => (g, None) | Some m => route g m end.
 
+  (* `sensorid in range(BROADCAST_ID + 1)`: only a valid node id is asked to present itself *)
+  Definition node_id_ok (sid : Z) : bool := (0 <=? sid) && (sid <=? broadcast_id).
+
   (* Gateway.is_sensor *)
   Definition is_sensor (g : gw) (sid : Z) (cid : option Z) : res (gw * bool) :=
     let ret := match get_node g sid with
                | None => false
                | Some nd => match cid with None => true | Some c => zhas c (n_children nd) end
                end in
-    if negb ret && cf_ge20 (g_cf g) then
+    if negb ret && node_id_ok sid && cf_ge20 (g_cf g) then
       match sassoc (s2p "I_PRESENTATION") (vt_internal_members (tab g)) with
       | None => Raise AttributeError
       | Some ipres =>
